@@ -3,7 +3,7 @@
     process_normal_command).  One [Frame] event of one connection is one step
     (single command thread, server.rs:367-422). *)
 From Ferrous Require Import Base.Bytes Model.Resp Model.Types Model.Glob Model.Strings
-  Model.Lists Model.ZSets Model.Streams.
+  Model.Lists Model.ZSets Model.Streams Model.Scan.
 Open Scope Z_scope.
 
 Record conn := { c_db : Z }.
@@ -48,8 +48,11 @@ Definition exec_db (now : Z) (d : db) (name : bytes) (parts : list frame) (oracl
   | None =>
   match exec_zsets now d name parts oracle with
   | Some r => Some r
-  | None => exec_streams now d name parts oracle
-  end end end.
+  | None =>
+  match exec_streams now d name parts oracle with
+  | Some r => Some r
+  | None => exec_scan now d name parts oracle
+  end end end end.
 
 Definition h_randomkey (d : db) (parts : list frame) (oracle : option frame) : frame :=
   if negb (len parts =? 1) then r_err else
